@@ -2426,7 +2426,7 @@ class BinaryQuadraticModel(QuadraticViewsMixin):
             raise ValueError("variable_order does not match the number of "
                              "variables")
 
-        ldata = np.asarray([self.get_linear(v) for v in variable_order])
+        ldata = [self.get_linear(v) for v in variable_order]
 
         label_to_idx = {v: idx for idx, v in enumerate(variable_order)}
         irow = []
@@ -2437,10 +2437,16 @@ class BinaryQuadraticModel(QuadraticViewsMixin):
             icol.append(label_to_idx[v])
             qdata.append(bias)
 
+        # the linear biases, quadratic biases and offset should share a dtype
+        dtype = np.result_type(*(np.asarray(a).dtype for a in (ldata, qdata, self.offset)))
+
+        ldata = np.asarray(ldata, dtype=dtype)
+        offset = dtype.type(self.offset)
+
         quadratic = QuadraticVectors(
             np.asarray(irow, dtype=np.int64),
             np.asarray(icol, dtype=np.int64),
-            np.asarray(qdata),
+            np.asarray(qdata, dtype=dtype),
             )
 
         if sort_indices:
@@ -2462,9 +2468,9 @@ class BinaryQuadraticModel(QuadraticViewsMixin):
                     )
 
         if return_labels:
-            return LabelledBQMVectors(ldata, quadratic, ldata.dtype.type(self.offset), variable_order)
+            return LabelledBQMVectors(ldata, quadratic, offset, variable_order)
         else:
-            return BQMVectors(ldata, quadratic, ldata.dtype.type(self.offset))
+            return BQMVectors(ldata, quadratic, offset)
 
     def to_qubo(self) -> Tuple[Mapping[Tuple[Variable, Variable], Bias], Bias]:
         """Convert a binary quadratic model to QUBO format.
